@@ -757,7 +757,22 @@ fn history_case(ctx: &Ctx, dir: &std::path::Path, case: u64, seed: u64, rep: &mu
     }
     // C02 over generated manifests (every fifth history): C17's operations, C02's oracle
     let regen_c02 = prop == "C02" && rng.chance(1, 5);
-    let gens = if prop == "C17" || regen_c02 { make_generations(&mut proj, &mut rng) } else { vec![] };
+    let mut gens = if prop == "C17" || regen_c02 { make_generations(&mut proj, &mut rng) } else { vec![] };
+    if !gens.is_empty() && rng.chance(1, 4) {
+        // (in-process only) the generator reports, and rewrites on every run, a cache file of its own
+        if let Some(gi) = proj.step_index("gen") {
+            if proj.steps[gi].discovers {
+                proj.sources.push("gencache.h".into());
+                proj.steps[gi].extra_reads.push("gencache.h".into());
+                for g in gens.iter_mut() {
+                    g.sources.push("gencache.h".into());
+                    if let Some(k) = g.step_index("gen") {
+                        g.steps[k].extra_reads.push("gencache.h".into());
+                    }
+                }
+            }
+        }
+    }
     clear_dir(dir);
     let mut world = World::new(dir.to_path_buf(), proj);
     world.next_gens = gens;
